@@ -293,6 +293,12 @@ def histories(ctx, model_ok, tmp, mode, trust=False):
                     purge = False
                 if purge:
                     registered.difference_update(ids)
+                if trust and not purge:
+                    # unstored, still registered: from now on a dataset the datastore has no records for; removing it again later
+                    # (trust mode looks for a file where the template would put it) must not touch what others refer to
+                    for i in set(ids) & live:
+                        orphan.add(i)
+                        kind_of[i] = "none"
                 live.difference_update(ids)
                 for i in set(ids) & orphan:
                     # a record-less dataset that is unstored has no artifact any more (trust mode removes the guessed file);
@@ -461,7 +467,14 @@ def histories(ctx, model_ok, tmp, mode, trust=False):
         except Exception as e:
             # the removal of everything a history made is part of the history: what it leaves behind is judged below; a failure
             # on its own is not a violation of this property, but the next history needs a fresh pair of runs (they have them)
-            ctx.notes.append(f"cleanup after history {h} raised {type(e).__name__}: {str(e)[:120]}")
+            import sqlite3 as _sq
+
+            _con = _sq.connect(f"file:{root}/gen3.sqlite3?mode=ro", uri=True)
+            _left = [bytes(r_[0]).hex() if isinstance(r_[0], (bytes, memoryview)) else str(r_[0]).replace("-", "") for r_ in _con.execute("SELECT dataset_id FROM dataset_location")]
+            _con.close()
+            _by = {refs[i].id.hex: i for i in refs}
+            ctx.notes.append(f"cleanup after history {h} (ops {ops}) raised {type(e).__name__}: {str(e)[:120]}; location rows left: "
+                             f"{[( _by.get(u_, u_), kind_of.get(_by.get(u_))) for u_ in _left]}; orphan={sorted(orphan)} live={sorted(live)} trashed={sorted(trashed)}")
             ctx.count("cleanup-raised")
             continue
         left = [k for k in _listing(root) if "sqlite" not in k and k != "butler.yaml" and not k.startswith("archive/")]
